@@ -296,6 +296,42 @@ def run(ctx):
             line_texts[name] = insts
         chk.ob("line/%s" % name, ok, "a printed line re-parses to a line with the same label / instruction / comment",
                b.loc(), det if not ok else "printed %r" % (insts[0],))
+    # comments: what the parser stores is a fixed point of print + parse.  The real parse_comment is interpreted on
+    # every comment text over the alphabet {blank, tab, ';', letter} up to length 4, the stored text is printed by the
+    # real Display impl, the printed line is matched against the grammar and its comment handed to parse_comment again
+    from .. import commentmodel
+    cpar = commentmodel.CommentParser(p, g)
+    pcb = cpar.body
+    parse_comment_on = cpar.parse
+    rests = commentmodel.family(4)
+    bad_c = []
+    ncom = 0
+    for rest in rests:
+        t1, b1 = parse_comment_on(rest)
+        ncom += 1
+        if not isinstance(t1, Str) or b1:
+            bad_c.append("comment %r: stored text not decided (%r %s)" % (";" + rest, t1, b1[:1]))
+            continue
+        out, probs, bad_ev, b = display("Line", En({lvi["Empty"]: (En({1: (t1,)}),)}))
+        insts = instantiate(out) if isinstance(out, Txt) and not probs else None
+        if not insts:
+            bad_c.append("comment %r stored as %r cannot be printed (%r %s)" % (";" + rest, t1.s, out, probs))
+            continue
+        for s_ in insts:
+            m = g.match_rule("line", s_)
+            cm = [c for c in m[1][0].children if c.rule == "comment"] if m is not None and m[0] == len(s_) else None
+            if not cm:
+                bad_c.append("comment %r stored as %r is printed as %r, which has no comment" % (";" + rest, t1.s, s_))
+                continue
+            t2, b2 = parse_comment_on(s_[cm[0].start + 1:cm[0].end])
+            if t2 != t1 or b2:
+                bad_c.append("comment %r is stored as %r, printed as %r and read back as %r"
+                             % (";" + rest, t1.s, s_, t2.s if isinstance(t2, Str) else t2))
+    chk.ob("comment/fixed-point", not bad_c,
+           "the comment text the parser stores survives printing and parsing again unchanged", pcb.loc(),
+           "; ".join(bad_c[:3]) or "%d comment texts" % ncom,
+           "A4 of parse_comment on concrete texts composed with the abstract Display evaluation and the PEG matcher")
+    chk.floor("comment texts", ncom, 341)
     # whole program
     asm_fields = p.field_names(AST + "Asm")
     for hname, hc in (("no-header-comment", none), ("header-comment", cmt)):
